@@ -210,7 +210,19 @@ pub fn explore(
                 .map(|s| {
                     let s = s.trim_start_matches('[');
                     let waits = s.split(" waits for ").nth(1).unwrap_or("");
-                    waits.replace("last acquired: ", "holding ").to_string()
+                    // background-thread tokens are process-wide counters: not part of a signature
+                    let s = waits.replace("last acquired: ", "holding ");
+                    let mut out = String::with_capacity(s.len());
+                    let mut it = s.chars().peekable();
+                    while let Some(c) = it.next() {
+                        out.push(c);
+                        if c == 'g' && out.ends_with("join(bg") {
+                            while it.peek().is_some_and(|d| d.is_ascii_digit()) {
+                                it.next();
+                            }
+                        }
+                    }
+                    out
                 })
                 .collect();
             parts.sort();
